@@ -205,3 +205,24 @@ Proof. vm_compute. reflexivity. Qed.
 Theorem no_silent_broadcast_table_all : forall c e a b, 2 <= length a ->
   row_exact FUEL table c e = true -> spec_shape e a b = None -> ~ can_return FUEL table c e a b.
 Proof. intros c e a b. exact (no_silent_broadcast_generic FUEL table c e a b). Qed.
+
+(* ------------------------------------------------------------------------------------ *)
+(** ** shape checks inside _matmul closures *)
+
+(* LinearOperator.solve has no shape check for a 2-D right-hand side and its generic _solve hands `self._matmul` to
+   linear_cg: on that route the only shape checks are the ones the `_matmul` / `_t_matmul` closures make themselves.
+   FINITE (regenerated list of the helpers / private methods that call _matmul_broadcast_shape): the closures that check on
+   the pinned tree still do (a repair adds entries and keeps this true; dropping a check "because the caller validated rhs"
+   breaks it) *)
+Open Scope string_scope.
+Definition pinned_helper_guards : list string :=
+  ["batch_repeat_linear_operator.py::BatchRepeatLinearOperator._matmul";
+   "cat_linear_operator.py::CatLinearOperator._matmul";
+   "kronecker_product_linear_operator.py::_matmul";
+   "kronecker_product_linear_operator.py::_t_matmul";
+   "matmul_linear_operator.py::MatmulLinearOperator._size";
+   "mul_linear_operator.py::MulLinearOperator._matmul"].
+Close Scope string_scope.
+Lemma helper_guards_kept :
+  forallb (fun h => existsb (String.eqb h) helper_guards) pinned_helper_guards = true.
+Proof. vm_compute. reflexivity. Qed.
